@@ -12,7 +12,7 @@ from fractions import Fraction
 
 from vf.runner import Violation, run_hypothesis
 from vf.common import Session, ulp
-from vf.matmodel import Model
+from vf.matmodel import Model, affine_strategy
 from vf import hist
 
 ID = "C04"
@@ -73,6 +73,8 @@ def op_strategy(depth=1):
         st.sampled_from(["xy", "yz", "zx"]).map(lambda p: T("mirror", p)),
         st.tuples(c, c, c).map(lambda t: T("set_pivot", list(t))),
         st.just(T("save_state")), st.just(T("restore_state")),
+        # any 4x4 matrix through the public chain_transform() (shears)
+        affine_strategy().map(lambda m: T("chain_transform", m)),
     )
     pt = hist.point_strategy(c)
     mv = st.one_of(
@@ -135,7 +137,11 @@ class Runner:
             mm = m.clone()
             expect = m.apply_op(op["name"], op["args"])
             try:
-                getattr(g.transform, op["name"])(*op["args"])
+                if op["name"] == "chain_transform":
+                    self.cl.add("chain_transform")
+                    g.transform.chain_transform(__import__("numpy").array(op["args"][0], dtype=float))
+                else:
+                    getattr(g.transform, op["name"])(*op["args"])
                 exc = None
             except Exception as e:
                 exc = e
